@@ -21,7 +21,8 @@ META = {
             "definition on all 256 requested versions x every supported protocol x 3 key revisions; the real "
             "function is evaluated for the same whole table and TLC compares every row. Forwarding payloads "
             "(live proxy answering a fake Paper backend for every 1.13+ protocol x boundary requested versions x "
-            "malformed request data, from distinct source IPs, UUIDs and hostile property lists; and "
+            "malformed request data, from distinct source IPs, UUIDs and hostile property lists incl. profiles that make the "
+            "payload exceed 2, 4 and 8 KiB; and "
             "CreateForwardingData for fake players with V1/V2 keys) are verified with crypto/hmac (and must fail "
             "under another secret), must equal byte for byte the layout Payload() built in TLA+ on Wire.tla, and "
             "their Paper-style parse must give back exactly ip, uuid, name, properties and key data. A backend "
@@ -63,6 +64,10 @@ def run(ctx):
         raise vlib.ToolError("no live forwarding payload / no key-carrying payload recorded: vacuous")
     if not s.get("noreq") or not s.get("live_joined_after_request"):
         raise vlib.ToolError("no conclusive no-request observation or no control join after a request: vacuous")
+    for src in ("shim", "live"):
+        for cls in (">2048", ">4096", ">8192"):
+            if not s.get("%s_payload%s" % (src, cls)):
+                raise vlib.ToolError("no %s payload of size %s was produced: size classes not covered" % (src, cls))
     lost = s.get("live_unreached", 0) + s.get("live_no_response", 0)
     if lost * 20 > s["live_payloads"]:
         raise vlib.ToolError("%d live logins gave no forwarding response" % lost)
